@@ -496,8 +496,8 @@ def getitem(a: NdArr, idx) -> NdArr:
                 rng = list(range(size))[slice(*st)]
                 sel.append(rng)
                 tgt.append(len(rng))
-            elif isinstance(i, (list, tuple)):
-                rng = [int(_as_int(x)) % size for x in i]
+            elif isinstance(i, (list, tuple)) or (isinstance(i, NdArr) and not i.sp and len(i.shape) == 1 and not i.trail and all(isinstance(_as_int(x), int) for x in i.data)):
+                rng = [int(_as_int(x)) % size for x in (i.data if isinstance(i, NdArr) else i)]
                 sel.append(rng)
                 tgt.append(len(rng))
             else:
@@ -652,6 +652,8 @@ def at_update(arr: NdArr, idx, mode: str, val) -> NdArr:
             sel.append([i % size])
         elif isinstance(i, slice):
             sel.append(list(range(size))[slice(*(_as_int(x) for x in (i.start, i.stop, i.step)))])
+        elif isinstance(i, NdArr) and not i.sp and not i.trail and len(i.shape) == 1 and all(isinstance(_as_int(x), int) for x in i.data) and len({_as_int(x) % size for x in i.data}) == len(i.data):
+            sel.append([_as_int(x) % size for x in i.data])  # distinct integer positions on an explicit axis
         else:
             raise AnalysisError(f".at index {it_!r}")
     sub = getitem(arr, tuple(exp_idx) + tuple(slice(None) for _ in sp_idx))
